@@ -255,6 +255,9 @@ class Mul(Base):
         if not _std(s) or not _is_tt(res):
             return
         D = s.dense()
+        if not np.isfinite(scalar):  # (1 / norm of a zero tensor inside a solver that normalises: nothing is stated about inf * x)
+            core.ctx().skip('scalar_multiple_by_non_finite_scalar')
+            return
         want = scalar * D
         got = _res_dense(res)
         self.ck('value', got.shape == want.shape and close(got, want, TOL, scale=abs(scalar) * s.floor()), [s],
@@ -402,6 +405,13 @@ class ResidualError(Base):
         MA, vx, vb = mat(A.dense()), mat(x.dense()).reshape(-1), mat(b.dense()).reshape(-1)
         want = float(np.linalg.norm(MA @ vx - vb))
         sc = float(np.linalg.norm(MA)) * float(np.linalg.norm(vx)) + float(np.linalg.norm(vb)) + 1e4 * A.floor() * x.floor() + b.floor()
+        # the residual train [Ax | -b] is orthonormalised core by core: its rounding noise is proportional to the product over the
+        # cores of (||A_i|| ||x_i|| + ||b_i||), which stays O(1) when Ax and b vanish through *different* cores (exactly-zero tensors)
+        if A.order == x.order == b.order:
+            cross = 1.0
+            for i in range(A.order):
+                cross *= float(np.linalg.norm(A.cores[i])) * float(np.linalg.norm(x.cores[i])) + float(np.linalg.norm(b.cores[i]))
+            sc += 1e-4 * cross
         self.ck('value', abs(res - want) <= 1e-8 * max(sc, 1e-300), [A, x, b], {'got': res, 'want': want})
         core.ctx().sig(self.api, A.shape_sig(), x.shape_sig(), b.shape_sig())
 
@@ -415,8 +425,21 @@ class Constructor(probe.Contract):
         self.name = name
 
     def post(self, st, res, args, kwargs):
-        check_returned(self.api, res)
         c = core.ctx()
+        if _is_tt(res):
+            # a constructor has no tensor-train argument it could hand back: its result must be an object (and a core list, and core
+            # buffers) of its own, distinct from every tensor train that is alive (memoised results would be shared by their holders)
+            same = any(ref() is res for (ref, _n) in list(probe.S.live.values()))
+            c.check(self.api, 'result_is_a_new_object', not same, (), None, prop='C06')
+            if not same:
+                mine = set(id(x) for x in res.cores)
+                shared = False
+                for (ref, _n) in list(probe.S.live.values()):
+                    o = ref()
+                    if o is not None and _is_tt(o):
+                        shared = shared or o.cores is res.cores or any(id(x) in mine for x in o.cores)
+                c.check(self.api, 'result_shares_no_core_with_live_objects', not shared, (), None, prop='C06')
+        check_returned(self.api, res)
         if not _is_tt(res) or not tt_consistent(res)[0] or dense_size(res.cores) > MAX_DENSE:
             return
         D = dense_cores(res.cores)
